@@ -30,6 +30,13 @@ def reexec():
         if k.startswith("PYRO_"):
             del env[k]
     deps = os.path.join(ROOT, ".deps")
+    if not os.path.isdir(deps):
+        # a checkout without the (untracked) offline-installed extras: install them from the local wheelhouse first
+        import subprocess
+        try:
+            subprocess.run([os.path.join(ROOT, "setup.sh")], stdout=subprocess.DEVNULL, stderr=subprocess.DEVNULL, timeout=300)
+        except Exception:
+            pass
     pp = [ROOT] + ([deps] if os.path.isdir(deps) else [])
     if env.get("VERIF_REPO"):
         # development aid (mutant runs on a scratch copy): registered commands never set this, they use /repo
